@@ -42,6 +42,20 @@ pub fn run(ctx: &mut Ctx) {
                     c.dw = rng.range(1, 5) as u32;
                     c.dh = rng.range(1, 5) as u32;
                 }
+                2 => {
+                    // integer origin, fractional size whose integer part is the destination size: a scale just above 1
+                    if c.sw >= 3 && c.sh >= 3 {
+                        let w = rng.range(1, (c.sw - 1) as u64) as f64;
+                        let h = rng.range(1, (c.sh - 1) as u64) as f64;
+                        let l = rng.below((c.sw as f64 - w) as u64) as f64;
+                        let t = rng.below((c.sh as f64 - h) as u64) as f64;
+                        let fw = if rng.chance(2, 3) { 0.5 + 0.499 * rng.unit() } else { 0.0 };
+                        let fh = if fw == 0.0 || rng.chance(1, 2) { 0.5 + 0.499 * rng.unit() } else { 0.0 };
+                        c.crop = Crop::Box([l, t, (w + fw).min(c.sw as f64 - l), (h + fh).min(c.sh as f64 - t)]);
+                        c.dw = w as u32;
+                        c.dh = h as u32;
+                    }
+                }
                 1 => {
                     // one-pixel source, or extreme ratios
                     if rng.chance(1, 2) {
